@@ -123,6 +123,10 @@ Definition set_delseen (w : world) (d : list str) : world :=
   mkWorld (w_nodes w) (w_ccs w) (w_rv w) (w_nfeed w) (w_cfeed w) (w_ncache w) (w_ccache w) (w_nq w) (w_cq w) (w_ctl w) (w_synced w) (w_nfetch w) (w_cfetch w) (w_svc w) d.
 
 (* the feeds only exist while informers run *)
+(* the service ranges the running incarnation was started with, in the order they are filtered out *)
+Definition svc_list (s : option cidr * option cidr) : list cidr :=
+  (match fst s with Some c => [c] | None => [] end) ++ (match snd s with Some c => [c] | None => [] end).
+
 Definition push_nev (w : world) (e : nevent) : list nevent := if w_synced w then w_nfeed w ++ [e] else w_nfeed w.
 Definition push_cev (w : world) (e : cevent) : list cevent := if w_synced w then w_cfeed w ++ [e] else w_cfeed w.
 
@@ -213,7 +217,7 @@ Section Step.
     | None => (w, no_obs)
     | Some m =>
         let reread := find_node key (w_ncache w) in
-        let '(m', r, fx) := sync_node po lab (can_patch w key) (api_same w key) (held_cidrs (w_ncache w)) m cached reread outs in
+        let '(m', r, fx) := sync_node po lab (svc_list (w_svc w)) (can_patch w key) (api_same w key) (held_cidrs (w_ncache w)) m cached reread outs in
         (apply_effects (after_call w r m') fx, mkObs (res_code r) fx false)
     end.
 
@@ -247,7 +251,7 @@ Section Step.
         match w_ctl w1 with
         | None => (w1, no_obs)
         | Some m =>
-            let '(m', r) := release_cidr m n in
+            let '(m', r) := release_cidr (svc_list (w_svc w)) m n in
             match r with
             | Panic => (crashed w1, mkObs 3 [] false)
             | _ => let w2 := set_ctl w1 (Some m') in
